@@ -1,0 +1,8 @@
+//go:build verif
+
+package stats
+
+// HTTPReturnCodesTotalsForVerif returns the total count per status code.
+func HTTPReturnCodesTotalsForVerif() map[string]uint64 {
+	return globalStats.HTTPReturnCodes.getAllTotal()
+}
